@@ -881,7 +881,18 @@ fn env_in_token(token: &str) -> bool {
     !libs::re::re_contains(token, &ptn_env)
 }
 
+/// Variable expansion for callers outside `do_expansion` (the inserted
+/// values are real text at once).
 pub fn expand_env(sh: &Shell, tokens: &mut types::Tokens) {
+    expand_env_masked(sh, tokens);
+    for token in tokens.iter_mut() {
+        token.1 = unmask_produced(&token.1);
+    }
+}
+
+/// Variable expansion as a pass of `do_expansion`: the inserted values are
+/// masked for the later passes (see `mask_produced`).
+fn expand_env_masked(sh: &Shell, tokens: &mut types::Tokens) {
     let mut idx: usize = 0;
     let mut buff = Vec::new();
     let n_assign = leading_assignment_words(tokens);
@@ -1156,7 +1167,7 @@ pub fn do_expansion(sh: &mut Shell, tokens: &mut types::Tokens) {
 
     expand_alias(sh, tokens);
     expand_home(tokens);
-    expand_env(sh, tokens);
+    expand_env_masked(sh, tokens);
     expand_brace(tokens);
     expand_glob(tokens);
     do_command_substitution(sh, tokens);
